@@ -25,6 +25,8 @@ RULE = ('programs of the C01 grammar (exhaustive small statements under rotating
 TRUSTED = ['networkx DiGraph node/edge/attribute semantics', 'CPython evaluation order and laziness of if/else, and, or',
            'the recording ndarray logs every element access of the generated code']
 ASSUMPTIONS = ['programs parse (every statement is `lhs = expression`), one equation per endogenous variable',
+               'the symbols are handed to symbols_to_graph as any iterable of Symbol objects (list, tuple, generator, '
+               'iter/filter/map/chain object, dict values view, deque, list subclass): all denote the same symbol list',
                'no named periods on the right-hand side of the perturbed series (guard of no_edge_no_influence)',
                'completeness ("every edge is read") is claimed for equations without if/else, and, or; the lazy case '
                'is exhibited as known finding lazy-branch-not-read']
@@ -169,11 +171,25 @@ def observe_(case, rep):
     if b.error:
         violate('rejected', f'program of the grammar rejected with {b.error}: {b.error_msg}')
         return None
+    # the symbols in any collection form the tool accepts (list, tuple, one-shot iterables, ...): same graph
+    form, coll = ec.symbol_collection(random.Random(case['data_seed'] + ':form'), b.symbols)
+    rep.dist['symbols-form:' + form] += 1
     try:
-        G = fsic.tools.symbols_to_graph(b.symbols)
+        G = fsic.tools.symbols_to_graph(coll)
     except Exception as e:  # noqa: BLE001
-        violate('graph-raised', f'symbols_to_graph raised {type(e).__name__}: {e}')
+        violate('graph-raised', f'symbols_to_graph({form} of symbols) raised {type(e).__name__}: {e}')
         return None
+    if form != 'list':
+        try:
+            G0 = fsic.tools.symbols_to_graph(list(b.symbols))
+            canon = lambda g: (sorted((str(a), str(d.get('equation'))) for a, d in g.nodes(data=True)),  # noqa: E731
+                               sorted((str(a), str(c)) for a, c in g.edges))
+            if canon(G) != canon(G0):
+                violate('graph-depends-on-collection-form',
+                        f'symbols_to_graph gives {G.number_of_nodes()} nodes / {G.number_of_edges()} edges for the symbols '
+                        f'as {form} but {G0.number_of_nodes()} / {G0.number_of_edges()} for the same symbols as a list')
+        except Exception as e:  # noqa: BLE001
+            violate('graph-raised', f'symbols_to_graph(list of symbols) raised {type(e).__name__}: {e}')
     impl = {'nodes': sorted(str(n) for n in G.nodes),
             'attr': {str(n): ec.lex(d['equation']) for n, d in G.nodes(data=True) if 'equation' in d},
             'edges': sorted([str(a), str(c)] for a, c in G.edges)}
